@@ -10,6 +10,15 @@ Binding A: every exported (grid, bounds / deck) through the real SimpleCloudsCon
 Binding B: random grids (SimplePressureProfile, ArrayPressureProfile, explicit levels; 2..100 layers),
            bounds inside / on levels / on layer pressures / above / below the atmosphere / unset /
            inverted, random magnitudes and particle parameters; same events, same judge; canaries.
+           Every model also holds a band-saturating absorber (line comb: cores with tau >> 10 next to
+           windows with tau << 1 in the same layer); "mix" events compare the transmittance with the
+           cloud / haze added BEFORE and AFTER that absorber with the product of the two alone at every
+           layer and wavenumber (MixOk of Clouds.tla, design model MC_CloudsMix).  Long-lived worlds:
+           ONE contribution object per kind and ONE model whose pressure range is changed through the
+           fitting parameters between events (nlayers unchanged), judged by the same clauses.
+Binding C: spec/Functional.tla walks (harness/history.py) on one long-lived model with a deck / grey haze /
+           Lee haze: pressure range, temperature, cloud and haze bounds changed through model[<fitting
+           parameter>]; sigma_xsec, transmittance and depth must equal those of a freshly built model.
 """
 import math
 import random
@@ -21,12 +30,16 @@ from ..fx_vertical import dec, LevelsPressureProfile, clear_opacities, register_
 
 S = 100000000          # scale of sigma / declared magnitude in the trace (1e-8 resolution)
 PPB = 1000             # slack of the depth inequality (1e-6 relative, float summation order)
+PPB_MIX = 200          # product of two 9-digit observations against a third
 WN = np.array([600.0, 1100.0, 2500.0, 4000.0, 9000.0])
+COMB_CM2 = [3.0e-17, 1.0e-29, 3.0e-17, 1.0e-29, 1.0e-18]     # line cores / windows of the comb absorber
+STATS = dict(mixed_layers=0, mix_events=0, licensed_layers=0)
 HAZE_CLAUSES = ['haze_evaluates', 'haze_wellformed', 'haze_finite_nonnegative', 'none_outside_window',
                 'declared_magnitude_inside', 'partial_within_interval', 'unset_means_whole_atmosphere',
                 'declared_wavelength_law']
 DECK_CLAUSES = ['opaque_at_and_below_deck', 'untouched_above']
 DECK_MODEL_CLAUSES = ['model_opaque_at_and_below_deck', 'model_untouched_above', 'depth_at_least_opaque_integral']
+MIX_CLAUSES = ['mix_wellformed', 'model_transmittance_is_product']
 
 
 def _imports():
@@ -46,7 +59,19 @@ def setup():
     X = _imports()
     clear_opacities()
     register_flat_opacity('H2O', WN, value_cm2=3.0e-23)
+    register_comb_opacity()
     return X
+
+
+def register_comb_opacity():
+    """A second absorber whose cross-section is huge at some wavenumbers (line cores) and negligible at
+    others (windows), the same at every (T, P) node: in the middle of the atmosphere a layer is opaque in
+    the cores and transparent in the windows."""
+    from taurex.cache import OpacityCache
+    from ..fixtures import GridOpacity
+    x = np.empty((2, 2, WN.shape[0]))
+    x[:, :, :] = np.array(COMB_CM2)[None, None, :]
+    OpacityCache().add_opacity(GridOpacity('CH4', WN, [10.0, 1.0e5], [1.0e-12, 1.0e12], x))
 
 
 # --------------------------------------------------------------------------- real objects
@@ -56,7 +81,9 @@ class World:
     def __init__(self, X, pp, T=900.0, mix=1e-3, planet=(0.8, 1.1)):
         chem = X['TaurexChemistry'](fill_gases=['H2', 'He'], ratio=0.17)
         chem.addGas(X['ConstantGas']('H2O', mix_ratio=mix))
+        chem.addGas(X['ConstantGas']('CH4', mix_ratio=mix))
         self.X = X
+        self.keep = {}           # long-lived contribution objects (after-history events)
         self.model = X['TransmissionModel'](planet=X['Planet'](*planet), star=X['BlackbodyStar'](), pressure_profile=pp,
                                             temperature_profile=X['Isothermal'](T=T), chemistry=chem)
         self.absorption = X['AbsorptionContribution']()
@@ -82,6 +109,28 @@ class World:
         finally:
             self.model.contribution_list = [self.absorption]
         return np.array(depth, dtype=float), np.array(tr, dtype=float)
+
+    def run_list(self, lst):
+        """model() with exactly the contributions `lst`, added in that order through the public API path
+        (build() sorts by the contributions' declared order, stable)."""
+        self.model.contribution_list = list(lst)
+        try:
+            self.model.build()
+            g, depth, tr, _ = self.model.model()
+        finally:
+            self.model.contribution_list = [self.absorption]
+        return np.array(depth, dtype=float), np.array(tr, dtype=float)
+
+    def regrid(self, pmin, pmax):
+        """change the pressure range of the SAME model through its fitting parameters (nlayers unchanged)"""
+        if pmax is not None:
+            self.model['atm_max_pressure'] = pmax
+        if pmin is not None:
+            self.model['atm_min_pressure'] = pmin
+        self.model.initialize_profiles()
+        self.levels = np.asarray(self.model.pressure.pressure_profile_levels, dtype=float).copy()
+        self.layers = np.asarray(self.model.pressureProfile, dtype=float).copy()
+        self._clear = None
 
     def prepare(self, c):
         self.model.initialize_profiles()
@@ -119,21 +168,63 @@ def bound_value(b, pos2p):
     return -1 if not b['set'] else pos2p(b['x'])
 
 
-def make_haze(X, kind, pb, pt, par):
+def make_haze(X, kind, pb, pt, par, reuse=None):
+    """a new contribution, or the long-lived one `reuse` with its settings changed through the setters
+    behind the fitting parameters"""
     if kind == 'flat':
-        return X['FlatMieContribution'](flat_mix_ratio=par['mix'], flat_bottomP=pb, flat_topP=pt), np.full(len(WN), par['mix'])
-    c = X['LeeMieContribution'](lee_mie_radius=par['a'], lee_mie_q=par['q'], lee_mie_mix_ratio=par['mix'],
-                                lee_mie_bottomP=pb, lee_mie_topP=pt)
+        if reuse is None:
+            c = X['FlatMieContribution'](flat_mix_ratio=par['mix'], flat_bottomP=pb, flat_topP=pt)
+        else:
+            c = reuse
+            c.mieMixing, c.mieBottomPressure, c.mieTopPressure = par['mix'], pb, pt
+        return c, np.full(len(WN), par['mix'])
+    if reuse is None:
+        c = X['LeeMieContribution'](lee_mie_radius=par['a'], lee_mie_q=par['q'], lee_mie_mix_ratio=par['mix'],
+                                    lee_mie_bottomP=pb, lee_mie_topP=pt)
+    else:
+        c = reuse
+        c.mieRadius, c.mieQ, c.mieMixing, c.mieBottomPressure, c.mieTopPressure = par['a'], par['q'], par['mix'], pb, pt
     return c, lee_magnitude(par['a'], par['q'], par['mix'])
 
 
-def haze_event(world, eid, kind, lev_pos, b, t, pb, pt, par, run_model):
+def tobs(x):
+    """transmittance -> decimal observation; below 1e-50 it is 0 (far beyond the exp(-10) licence)"""
+    x = float(x)
+    if x == x and 0.0 <= x < 1e-50:
+        return [0, 0]
+    return dec(x)
+
+
+def mix_event(world, eid, c):
+    """The cloud / haze `c` next to the band-saturating absorber in ONE model: transmittance with the
+    absorber alone, with c alone, and with both in either order of addition."""
+    depth0, ta = world.clear()
+    e = dict(ev='mix', id=eid, ppb=PPB_MIX, ta=[], th=[], tb=[], raised=False)
+    try:
+        _, th = world.run_list([c])
+        both = [world.run_list([world.absorption, c])[1], world.run_list([c, world.absorption])[1]]
+    except Exception as ex:
+        e['raised'] = True
+        e['exception'] = repr(ex)[:200]
+        return e
+    e['ta'] = [[tobs(x) for x in row] for row in ta]
+    e['th'] = [[tobs(x) for x in row] for row in th]
+    e['tb'] = [[[tobs(x) for x in row] for row in tb] for tb in both]
+    cut = math.exp(-10.0)
+    hz = np.any((th < 0.999) & (th > 0.0), axis=1) if th.shape == ta.shape else np.zeros(len(ta), bool)
+    STATS['mix_events'] += 1
+    STATS['mixed_layers'] += int(np.sum((ta.min(axis=1) < cut) & (ta.max(axis=1) > 0.5) & hz))
+    STATS['licensed_layers'] += int(np.sum(ta.max(axis=1) < cut))
+    return e
+
+
+def haze_event(world, eid, kind, lev_pos, b, t, pb, pt, par, run_model, mix=False, reuse=None):
     """Drive the real contribution; log what happened."""
     X = world.X
     e = dict(ev='haze', id=eid, kind=kind, lev=lev_pos, b=b, t=t, S=S, raised=False, model=False, ms=[], rowsame=[], rowle=[])
     info = dict(pb=pb, pt=pt, par=par)
     try:
-        c, mag = make_haze(X, kind, pb, pt, par)
+        c, mag = make_haze(X, kind, pb, pt, par, reuse)
         sigma = world.prepare(c)
     except Exception as ex:      # an exception is an outcome of the code under test, judged by the spec
         e['raised'] = True
@@ -153,12 +244,18 @@ def haze_event(world, eid, kind, lev_pos, b, t, pb, pt, par, run_model):
         except Exception as ex:
             e['raised'] = True
             info['exception'] = repr(ex)[:200]
+    if mix and not e['raised']:
+        info['_mix'] = mix_event(world, eid + ':mix', c)
     return e, info, sigma, mag
 
 
-def deck_event(world, eid, cen2, deckpos, pdeck, run_model):
+def deck_event(world, eid, cen2, deckpos, pdeck, run_model, mix=False, reuse=None):
     X = world.X
-    c = X['SimpleCloudsContribution'](clouds_pressure=pdeck)
+    if reuse is None:
+        c = X['SimpleCloudsContribution'](clouds_pressure=pdeck)
+    else:
+        c = reuse
+        c.cloudsPressure = pdeck
     sigma = world.prepare(c)
     sig = []
     for k in range(world.n):
@@ -180,7 +277,10 @@ def deck_event(world, eid, cen2, deckpos, pdeck, run_model):
         w = int(np.argmin(depth1 / depth0))
         e['depth'] = dec(float(np.min(depth1)))
         e['dw'], e['cw'] = dec(float(depth1[w])), dec(float(depth0[w]))
-    return e, dict(pdeck=pdeck)
+    info = dict(pdeck=pdeck)
+    if mix:
+        info['_mix'] = mix_event(world, eid + ':mix', c)
+    return e, info
 
 
 def exact_checks(ctx, e, adm, sigma, mag, cls, vec):
@@ -222,7 +322,7 @@ def haze_cls(kind, grid, b, t, lev_pos):
 def judge(ctx, events, meta, label):
     if not events:
         raise Machinery('no events for ' + label)
-    accepted, bad, res = validate_trace('Trace_Clouds', 'Trace_Clouds.cfg', events, timeout=1500)
+    accepted, bad, res = validate_trace('Trace_Clouds', 'Trace_Clouds.cfg', [e for e in events if not (e['ev'] == 'mix' and e['raised'])], timeout=1500)
     ctx.add_tlc('trace-' + label, res, counts=False)
     if res.postcondition_false and not bad:
         raise Machinery('trace spec did not consume the whole trace:\n' + res.out[-1500:])
@@ -232,6 +332,15 @@ def judge(ctx, events, meta, label):
         cls, vec, info = meta[e['id']]
         if e['ev'] == 'haze':
             clauses = HAZE_CLAUSES + (['model_rows_untouched_outside_window'] if e['model'] else [])
+        elif e['ev'] == 'mix':
+            clauses = MIX_CLAUSES
+            if e['raised']:
+                ctx.verdict('mix_evaluates', False, cls=cls, detail='model() raised: %s' % e.get('exception'), vector=dict(vec, event=dict(id=e['id'])))
+                continue
+            vec = dict(vec, event=dict(id=e['id'], ev='mix'))     # the rows are regenerated on replay
+            for c in clauses:
+                ctx.verdict(c, c not in why, cls=cls, detail='TLC rejected %s: %s; %s' % (e['id'], sorted(why), info), vector=vec)
+            continue
         else:
             clauses = DECK_CLAUSES + (DECK_MODEL_CLAUSES if e['model'] else [])
         for c in clauses:
@@ -266,6 +375,9 @@ def pos2p_factory(world, lev_pos):
     return pos2p
 
 
+MIX_EVERY = 12
+
+
 def run_vectors(ctx, vecs, X, rng):
     cache = {}
     events, meta, post = [], {}, []
@@ -279,21 +391,27 @@ def run_vectors(ctx, vecs, X, rng):
             world = world_for_grid(X, lev_pos, pclass, cache)
             pos2p = pos2p_factory(world, lev_pos)
             eid = 'A%d:%s' % (j, pclass)
+            mix = (j % MIX_EVERY == 0)
             if v['kind'] == 'deck':
                 cen2 = [lev_pos[k] + lev_pos[k + 1] for k in range(n)]
-                e, info = deck_event(world, eid, cen2, v['deck'], pos2p(v['deck']), True)
+                e, info = deck_event(world, eid, cen2, v['deck'], pos2p(v['deck']), True, mix=mix)
                 d = v['deck']
                 dc = 'below-surface' if 2 * d > cen2[0] else ('above-top' if 2 * d <= cen2[-1] else ('on-layer-pressure' if 2 * d in cen2 else 'inside'))
-                meta[eid] = ('deck:%s:%s' % (pclass, dc), dict(v, pclass=pclass), info)
+                cls = 'deck:%s:%s' % (pclass, dc)
+                meta[eid] = (cls, dict(v, pclass=pclass), info)
                 events.append(e)
             else:
                 kind = v['kind']
                 e, info, sigma, mag = haze_event(world, eid, kind, lev_pos, v['b'], v['t'], bound_value(v['b'], pos2p),
-                                                 bound_value(v['t'], pos2p), pars[kind], True)
+                                                 bound_value(v['t'], pos2p), pars[kind], True, mix=mix)
                 cls = haze_cls(kind, pclass, v['b'], v['t'], lev_pos)
                 meta[eid] = (cls, dict(v, pclass=pclass), info)
                 events.append(e)
                 post.append((e, v['adm'], sigma, mag, cls, dict(v, pclass=pclass)))
+            m = info.pop('_mix', None)
+            if m is not None:
+                meta[m['id']] = (cls + ':with-band-absorber', dict(v, pclass=pclass, mix=True), dict(info))
+                events.append(m)
     judge(ctx, events, meta, 'vectors')
     for e, adm, sigma, mag, cls, vec in post:
         exact_checks(ctx, e, adm, sigma, mag, cls, vec)
@@ -355,13 +473,24 @@ def random_bound(rng, world, kind_hint):
     return dict(set=False, x=0), -1, 'unset'
 
 
-def random_event(world, grid, esub, eid, run_model):
-    """One random deck / haze event on a built world, fully determined by the sub-seed esub."""
+def random_event(world, grid, esub, eid, run_model, mix=False, long_lived=False):
+    """One random deck / haze event on a built world, fully determined by the sub-seed esub.
+    long_lived: the contribution object of that kind is the one the world has used before (settings
+    changed through its setters) and, on the standard grid, the pressure range of the model may be
+    changed first through atm_min_pressure / atm_max_pressure (same number of layers)."""
     rng = random.Random(esub)
+    reuse = {}
+    if long_lived:
+        r0 = rng.random()
+        if grid == 'simple' and r0 < 0.6:
+            lmax, lmin = rng.uniform(3.0, 7.0), rng.uniform(-5.0, 1.5)
+            world.regrid(10.0 ** lmin if r0 < 0.4 else None, 10.0 ** lmax if r0 > 0.2 else None)
+        reuse = world.keep
     n = world.n
     lev_pos = [lpos(p) for p in world.levels]
     cen2 = [2 * lpos(p) for p in world.layers]
-    recipe = dict(random=True, n=n, grid=grid, esub=esub, run_model=run_model)
+    recipe = dict(random=True, n=n, grid=grid, esub=esub, run_model=run_model, mix=mix)
+    hist = ':after-history' if long_lived else ''
     r = rng.random()
     if r < 0.25:
         q = rng.random()
@@ -377,17 +506,45 @@ def random_event(world, grid, esub, eid, run_model):
                 p = 10.0 ** rng.uniform(math.log10(world.layers[-1]), math.log10(world.layers[0]))
                 if all(abs(2 * lpos(p) - c) > 400 for c in cen2):
                     break
-        e, info = deck_event(world, eid, cen2, lpos(p), p, run_model and rng.random() < 0.5)
-        return e, 'deck:%s:%s' % (grid, dc), recipe, info
+        if long_lived and 'deck' not in reuse:
+            reuse['deck'] = world.X['SimpleCloudsContribution'](clouds_pressure=p)
+        e, info = deck_event(world, eid, cen2, lpos(p), p, run_model and rng.random() < 0.5, mix=mix, reuse=reuse.get('deck'))
+        return e, 'deck:%s%s:%s' % (grid, hist, dc), recipe, info
     kind = 'flat' if r < 0.65 else 'lee'
     b, pb, cb = random_bound(rng, world, kind)
     t, pt, ct = random_bound(rng, world, kind)
     par = dict(mix=10.0 ** rng.uniform(-30, -24)) if kind == 'flat' else \
         dict(a=10.0 ** rng.uniform(-2, 0.5), q=rng.uniform(1.0, 80.0), mix=10.0 ** rng.uniform(-14, -10))
-    e, info, sigma, mag = haze_event(world, eid, kind, lev_pos, b, t, pb, pt, par, run_model and rng.random() < 0.3)
+    if long_lived and kind not in reuse:
+        reuse[kind] = make_haze(world.X, kind, pb, pt, par)[0]
+    e, info, sigma, mag = haze_event(world, eid, kind, lev_pos, b, t, pb, pt, par, run_model and rng.random() < 0.3,
+                                     mix=mix, reuse=reuse.get(kind))
     inv = b['set'] and t['set'] and b['x'] < t['x']
-    cls = '%s:%s:b=%s:t=%s%s' % (kind, grid, cb, ct, ':inverted' if inv else '')
+    cls = '%s:%s%s:b=%s:t=%s%s' % (kind, grid, hist, cb, ct, ':inverted' if inv else '')
     return e, cls, recipe, info
+
+
+def long_sequence(X, wsub, n, count):
+    """The events of ONE long-lived world: the same model and the same three contribution objects through
+    `count` events; everything is determined by wsub (so that replay can regenerate event j)."""
+    world, grid = random_world(X, random.Random(wsub), n)
+    if world is None:
+        return None, grid, []
+    seq = random.Random(wsub ^ 0x5bd1e995)
+    out = []
+    for j in range(count):
+        out.append(random_event(world, grid, seq.getrandbits(48), 'L%d:%d' % (wsub % 100000, j), n <= 40,
+                                mix=(j % 4 == 1 and n <= 40), long_lived=True))
+    return world, grid, out
+
+
+def add_event(events, meta, e, cls, vec, info):
+    m = info.pop('_mix', None)
+    meta[e['id']] = (cls, vec, info)
+    events.append(e)
+    if m is not None:
+        meta[m['id']] = (cls + ':with-band-absorber', dict(vec, mix_only=True), dict(info))
+        events.append(m)
 
 
 def run_random(ctx, X, rng, nworlds, per_world, model_max_n):
@@ -407,14 +564,24 @@ def run_random(ctx, X, rng, nworlds, per_world, model_max_n):
         nw += 1
         for j in range(per_world):
             eid = 'B%d:%d' % (nw, j)
-            e, cls, recipe, info = random_event(world, grid, rng.getrandbits(48), eid, n <= model_max_n)
-            meta[eid] = (cls, dict(recipe, wsub=wsub), info)
-            events.append(e)
+            e, cls, recipe, info = random_event(world, grid, rng.getrandbits(48), eid, n <= model_max_n,
+                                                mix=(j % 8 == 3 and n <= model_max_n))
+            add_event(events, meta, e, cls, dict(recipe, wsub=wsub), info)
     if nw < 5:
         raise Machinery('too few random grids')
+    # long-lived worlds: one model, one contribution object per kind, pressure range changed in between
+    nlong = 0
+    for n in [2, 7, 30] + [rng.randint(2, 60) for _ in range(max(3, nworlds // 4) - 3)]:
+        wsub = rng.getrandbits(48)
+        world, grid, seq = long_sequence(X, wsub, n, per_world)
+        if world is None:
+            continue
+        nlong += 1
+        for j, (e, cls, recipe, info) in enumerate(seq):
+            add_event(events, meta, e, cls, dict(recipe, wsub=wsub, long=j), info)
     badids = judge(ctx, events, meta, 'random')
     ctx.traces += len(events)
-    ctx.note('binding B: %d grids (%d skipped: derived levels not decreasing), %d events' % (nw, skipped, len(events)))
+    ctx.note('binding B: %d grids (%d skipped: derived levels not decreasing) + %d long-lived worlds, %d events' % (nw, skipped, nlong, len(events)))
     ctx.add_sample(dict(trace_event={k: (v if not isinstance(v, list) or len(v) < 12 else v[:12]) for k, v in events[-1].items()}))
     run_canaries(events, badids)
 
